@@ -173,8 +173,12 @@ func aliasMessage(r *RNG, big bool, salt byte) []byte {
 		switch r.Intn(9) {
 		case 0: // Host-IP-Address, IPv4
 			return rawAVP(257, 0x40, 0, 8+6, append([]byte{0, 1}, fill(4)...), true)
-		case 1: // Host-IP-Address, IPv6
-			return rawAVP(257, 0x40, 0, 8+18, append([]byte{0, 2}, fill(16)...), true)
+		case 1: // Host-IP-Address, IPv6 (one in three: an IPv4-mapped address, which net.IP.To4 recognises)
+			ip6 := fill(16)
+			if r.Intn(3) == 0 {
+				copy(ip6, []byte{0, 0, 0, 0, 0, 0, 0, 0, 0, 0, 0xff, 0xff})
+			}
+			return rawAVP(257, 0x40, 0, 8+18, append([]byte{0, 2}, ip6...), true)
 		case 2: // Host-IP-Address of another family, odd length
 			k := 1 + anyLen(12)
 			return rawAVP(257, 0x40, 0, 8+2+k, append([]byte{0, 8}, fill(k)...), true)
@@ -249,6 +253,22 @@ func genAlias(r *RNG, n int, op string, emit func(string)) {
 			if t == 1 && k >= 2 && r.Chance(70) { // Address: plausible families
 				p[0] = 0
 				p[1] = []byte{1, 2, 8, 0, 255}[r.Intn(5)]
+				if r.Chance(30) { // the well-formed IP shapes, IPv4-mapped IPv6 among them
+					if r.Bool() {
+						p = append([]byte{0, 1}, r.Bytes(4)...)
+					} else {
+						p = append([]byte{0, 2}, r.Bytes(16)...)
+						if r.Bool() {
+							copy(p[2:], []byte{0, 0, 0, 0, 0, 0, 0, 0, 0, 0, 0xff, 0xff})
+						}
+					}
+				}
+			}
+			if (t == 9 || t == 18) && r.Chance(40) { // IPv4 / IPv6 typed payloads of both widths, mapped form included
+				p = r.Bytes([]int{4, 16}[r.Intn(2)])
+				if len(p) == 16 && r.Bool() {
+					copy(p, []byte{0, 0, 0, 0, 0, 0, 0, 0, 0, 0, 0xff, 0xff})
+				}
 			}
 			emit(fmt.Sprintf("alias leaf t=%d p=-%s", t, hex.EncodeToString(p)))
 		}
